@@ -503,7 +503,36 @@ def oracle_C15(inp, out):
     return None
 
 
-ORACLES = {"C15": oracle_C15}
+def oracle_C09(inp, out):
+    """symbols outside the alphabet are rejected by both codeword forms and by the message forms;
+    symbols of the alphabet never are"""
+    kind, n, ws, ops = parse_input(inp)
+    if n == 0 or len(out) < 2 or out[0] != 0 or out[1] != 0:
+        return None
+    if any(x in SPECIAL for x in out):
+        return "panic/abort/timeout on a non-empty weight list"
+    try:
+        items = list(walk(inp, out))
+    except Malformed:
+        return "malformed output (wrong number of symbols or results)"
+    for op, args, res in items:
+        if op in (1, 2):
+            if args >= n and res != -1:
+                return "symbol %d outside the alphabet not rejected" % args
+            if args < n and not isinstance(res, list):
+                return "symbol %d of the alphabet rejected" % args
+        elif op in (3, 4):
+            syms, extra = args
+            status, dec = res
+            if all(s < n for s in syms):
+                if status != 0:
+                    return "encoding a valid message failed"
+            elif status != -1:
+                return "message with a symbol outside the alphabet not rejected"
+    return None
+
+
+ORACLES = {"C15": oracle_C15, "C09": oracle_C09}
 
 
 def nontrivial(inp, out, prop=None):
